@@ -134,7 +134,7 @@ def build_program(rng, nexpr, depth):
         lines.append('.define segment { name = "r" start = $%x pc = $%x }' % (rng.choice([0x1000, 0x0810, 0xC000]), BASE))
     ints, strs = [], []
     for i in range(rng.randrange(3, 7)):
-        name = "k%d" % i
+        name = rng.choice(["k%d", "k%d", "trueval%d", "false_%d", "True%d", "asciiz%d", "defined%d"]) % i
         leaf = num_leaf(rng)
         v = leaf[1]
         txt = leaf[2]
